@@ -37,7 +37,7 @@ REQUIRED = ['getNBest_perm', 'getNBest_rename', 'mem_getNBest_iff', 'symmetric_c
             'pav_symmetric_candidates', 'spav_symmetric_candidates',
             'quota_distributor_perm_all', 'largest_remainder_perm_all', 'ranked_pairs_pairwise_tie_order_witness',
             'baldwin_perm', 'baldwin_rename', 'benham_perm', 'tideman_perm', 'star_perm',
-            'baldwin_rename_noshared', 'baldwin_symmetric_candidates', 'benham_rename', 'tideman_rename', 'star_rename',
+            'baldwin_rename_noshared', 'baldwin_symmetric_candidates', 'benham_rename', 'tideman_rename', 'tideman_n_perm', 'tideman_n_rename', 'star_rename',
             'star_rename_relisted', 'preference_addition_perm', 'decouple_perm', 'preference_addition_order_witness',
             'preference_addition_rename']
 _LR = ['hare', 'hagenbach_bischoff', 'imperiali', 'droop', 'hare_rounded', 'hagenbach_bischoff_ceil', 'hagenbach_bischoff_rounded']
@@ -111,13 +111,13 @@ def _mj(tb):
 MODEL['majority_judgment'] = (_mj('default'), 'sel')
 MODEL['majority_judgment_plus'] = (_mj('plus'), 'sel')
 PROVED_FAMILIES = list(MODEL)
-# models of C08 (Baldwin, n-seat PreferenceAddition), C05 (Benham / Tideman, one seat: modelled for n = 1 only) and C12 (STAR)
+# models of C08 (Baldwin, n-seat PreferenceAddition), C05 (Benham: one seat, modelled for n = 1 only; Tideman: tidemanN, any n) and C12 (STAR)
 PROVED_FAMILIES += ['baldwin', 'benham', 'tideman_alternative', 'star', 'bucklin', 'oklahoma']
 MODEL['baldwin'] = (_simple('baldwin'), 'sel')
 MODEL['bucklin'] = (_simple('preference_addition', coef='bucklin', split=True), 'sel')
 MODEL['oklahoma'] = (_simple('preference_addition', coef='oklahoma', split=True), 'sel')
 MODEL['benham'] = ((lambda prof, n: dict(op='benham', profile=prof) if n == 1 else None), 'sel')
-MODEL['tideman_alternative'] = ((lambda prof, n: dict(op='tideman', profile=prof, smith=True) if n == 1 else None), 'sel')
+MODEL['tideman_alternative'] = ((lambda prof, n: dict(op='tideman', profile=prof, smith=True, n=n)), 'sel')
 MODEL['star'] = ((lambda prof, n: dict(op='c10_star', votes=[[[[c, str(sc)] for c, sc in b], int(w)] for b, w in prof], n=n,
                                        added_count=1, added_fraction='0', unscored=None, min_count=0, truncation='0', bottom='0')), 'sel')
 K_PERM = 3
@@ -144,7 +144,7 @@ UNPROVED += [
     'ballot order is proved for every policy)',
     'ranked_pairs_perm_distinct_majorities_only (FALSE of the code for pairwise ties: ranked_pairs_pairwise_tie_order_witness, open '
     'finding; proved under Perm.RPDistinct: the (score, count) sort keys separate ALL pairs)',
-    'benham / tideman_alternative for n_seats > 1 (the models of C05 are one-seat; n = 1 is proved)',
+    'benham for n_seats > 1 (the model of C05 is one-seat; n = 1 is proved; Tideman alternative is proved for every n)',
     'majority_judgment_rename (proved for order-preserving renamings only: majority_judgment_rename_mono_partial)',
     'rename_equivariant_thresholds_quota_selector_under_noninjective: n/a (proved for every renaming)',
     'hash_seed_independence (not expressible in a Lean model; sampled)',
